@@ -55,6 +55,16 @@ type ncluster struct {
 	ReqBuf        int
 	ResFlush      int // ResFlushInterval ms (-1 off, 0 default)
 	CancelOnClose bool
+	FailNum       int // health check: failures that take a backend out (0 = practically never)
+	SuccNum       int
+	CheckInterval int // ms
+}
+
+func (cl *ncluster) checkConf() map[string]interface{} {
+	if cl.FailNum <= 0 {
+		return map[string]interface{}{"Schem": "tcp", "FailNum": 1000, "CheckInterval": 1000}
+	}
+	return map[string]interface{}{"Schem": "tcp", "FailNum": cl.FailNum, "SuccNum": cl.SuccNum, "CheckInterval": cl.CheckInterval, "CheckTimeout": 200}
 }
 
 type nconf struct {
@@ -135,7 +145,7 @@ func (c *nconf) writeData(root string) {
 	for _, cl := range c.Clusters {
 		cc[cl.Name] = map[string]interface{}{
 			"BackendConf": map[string]interface{}{"TimeoutConnSrv": cl.ConnTO, "TimeoutResponseHeader": cl.RespHdrTO, "MaxIdleConnsPerHost": cl.MaxIdle, "RetryLevel": cl.RetryLevel},
-			"CheckConf":   map[string]interface{}{"Schem": "tcp", "FailNum": 1000, "CheckInterval": 1000},
+			"CheckConf":   cl.checkConf(),
 			"GslbBasic":   map[string]interface{}{"CrossRetry": cl.CrossRetry, "RetryMax": cl.RetryMax, "HashConf": map[string]interface{}{"HashStrategy": 1, "SessionSticky": false}},
 			"ClusterBasic": map[string]interface{}{"TimeoutReadClient": cl.ReadCliTO, "TimeoutWriteClient": cl.WriteCliTO, "TimeoutReadClientAgain": cl.ReadAgain,
 				"ReqWriteBufferSize": cl.ReqBuf, "ReqFlushInterval": 0, "ResFlushInterval": cl.ResFlush, "CancelOnClientClose": cl.CancelOnClose},
